@@ -168,6 +168,57 @@ func check(c core.Case, out []string) *core.Failure {
 		}
 		arg := func(k int) []byte { b, _ := unhx(t[k]); return b }
 		switch t[0] {
+		case "reuse-cbc-left", "reuse-gcm-left":
+			var secret, ad, raw []byte
+			if t[0] == "reuse-cbc-left" {
+				secret, raw = arg(1), arg(2)
+			} else {
+				secret, ad, raw = arg(1), arg(2), arg(3)
+			}
+			k := strings.LastIndex(o, " ct=")
+			if k < 0 {
+				return bad(t[0]+"-malformed", "want <outcome> ct=<buffer>")
+			}
+			left, _ := unhx(o[k+4:])
+			res := o[:k]
+			// the 16-byte header (and everything if the call was rejected before decrypting) is never written
+			hdr := len(raw)
+			if hdr > 16 {
+				hdr = 16
+			}
+			if len(left) != len(raw) || !bytes.Equal(left[:hdr], raw[:hdr]) {
+				return bad(t[0]+"-side-effect", "reuseCipherText may only overwrite cipherText[16:]: the header must stay")
+			}
+			var p []byte
+			var ok bool
+			if t[0] == "reuse-cbc-left" {
+				p, ok = refCBCOpen(raw, secret)
+				wellFormed := len(raw) >= 32 && len(raw)%16 == 0 && bytes.Equal(raw[:8], magic)
+				if !wellFormed && !bytes.Equal(left, raw) {
+					return bad(t[0]+"-side-effect", "a call rejected by the length / magic checks must not write at all")
+				}
+			} else {
+				p, ok = refGCMOpen(raw, secret, ad)
+				if len(raw) >= 16 && bytes.Equal(raw[:8], magic) && !ok && len(raw) >= 32 {
+					// failed authentication: Open clears its output region cipherText[16:len-16], the tag stays
+					want := append(append(append([]byte{}, raw[:16]...), make([]byte, len(raw)-32)...), raw[len(raw)-16:]...)
+					if !bytes.Equal(left, want) {
+						return bad(t[0]+"-failure-leaves", "after a failed authentication cipherText[16:len-16] must be zeros and header and tag unchanged")
+					}
+				}
+			}
+			if !ok {
+				if !isErr(res) {
+					return bad(t[0]+"-accepts-malformed", "must be an error")
+				}
+				continue
+			}
+			if res != "ok "+hx(p) {
+				return bad(t[0]+"-wrong", "want plaintext "+clipS(hx(p)))
+			}
+			if !bytes.Equal(left[16:16+len(p)], p) {
+				return bad(t[0]+"-wrong", "the returned slice must be the start of cipherText[16:]")
+			}
 		case "enc-cbc", "raw-enc-cbc":
 			salt, secret, pt := arg(2), arg(3), arg(4)
 			want := refCBCEnvelope(salt, secret, pt)
